@@ -197,7 +197,9 @@ func (e *Env) evalAddr(x ast.Expr) (Val, bool) {
 		if e.lookupAddr != nil {
 			if _, shadow := e.vars[t.Name]; !shadow {
 				if p, ok := e.lookupAddr(t.Name); ok {
-					return p, true
+					if _, isStruct := elemType(p.T).Underlying().(*types.Struct); isStruct {
+						return p, true
+					}
 				}
 			}
 		}
